@@ -294,6 +294,9 @@ def run(R):
         R.case(case, nontrivial=nchunks >= 2 or multi)
         transition(R, case, os3, ns3, oc3, nc3, method, dtype, C, vol)
 
+    # ---------------------------------------------------------- (a') unreadable source chunks
+    _unreadable_source_stream(R, rng, quick)
+
     # ---------------------------------------------------------- (b) generator outputs, whole pyramid in memory
     for k in range(220 if quick else 3500):
         size, res, target, info = gen_pyramid_input(rng, 2500 if k % 3 else 9000)
@@ -475,6 +478,59 @@ def run(R):
         print(collections.Counter(v["what"] for v in R.disagreements))
         for v in R.disagreements[:5]:
             print(v)
+
+
+def _unreadable_source_stream(R, rng, quick):
+    """Source scale as a chunk store with failing reads (C06_fails_on_unreadable_source): some chunks of
+    the old grid raise DataAccessError / InvalidFormatError when compute_dyadic_downscaling reads them.
+    Model: op tile_level_src.  Oracle: on a compat pair the transition must fail, with the class of a
+    read that failed; whatever the geometry, a run that does not raise must still equal the reference."""
+    for _ in range(260 if quick else 6000):
+        for _try in range(50):
+            os3, ns3, oc3, nc3 = gen_handmade(rng)
+            f3 = [pc.py_axis_f(a, b) for a, b in zip(os3, ns3)]
+            if ns3 == [pc.ceil_div(a, f) for a, f in zip(os3, f3)]:
+                break
+        pyc = all(pc.py_compat_axis(*t) for t in zip(os3, ns3, oc3, nc3))
+        if not pyc and rng.random() < 0.7:
+            continue                      # mostly compat pairs: there the failure is mandatory
+        method = rng.choice(["average", "majority", "stride"])
+        C = rng.choice([1, 2])
+        vol = rand_vol(rng, (C, os3[2], os3[1], os3[0]), "uint8", method)
+        grid = [(x, min(x + oc3[0], os3[0]), y, min(y + oc3[1], os3[1]), z, min(z + oc3[2], os3[2]))
+                for x in range(0, os3[0], oc3[0]) for y in range(0, os3[1], oc3[1]) for z in range(0, os3[2], oc3[2])]
+        nbad = rng.choice([1, 1, 1, 2, 3])
+        bad = {co: rng.choice(["AccessErr", "AccessErr", "FormatErr"]) for co in rng.sample(grid, min(nbad, len(grid)))}
+        info = pc.two_scale_info(os3, ns3, oc3, nc3, "uint8", C)
+        out, io = pc.run_transition(info, 0, method, vol, 0xFF, unreadable=bad)
+        rep = R.model.call("tile_level_src", [pc.Atom(method), os3, ns3, oc3, nc3, C, [int(v) for v in vol.ravel()],
+                                              [[[co[0], co[2], co[4]], pc.Atom(k)] for co, k in sorted(bad.items())]])
+        mod = model_outcome(rep)
+        case = {"unreadable_source": sorted([list(co), k] for co, k in bad.items()), "os": os3, "ns": ns3,
+                "oc": oc3, "nc": nc3, "method": method, "C": C}
+        R.case(case, nontrivial=len(grid) >= 2)
+        cls = out[0] if out[0] == "ok" else out[-1]
+        R.count(f"unreadable-source:{'compat' if pyc else 'other'}:{cls}")
+        # correspondence
+        if out[0] == "ok":
+            ich = [(co, [int(v) for v in a.ravel()]) for co, a in out[1]]
+            mch = [(co, d) for co, d, _ in pc.model_chunks(mod[1], pc.poison_value(0xFF, "uint8"))] if mod[0] == "ok" else mod
+            if mch != ich:
+                R.disagree("compute_dyadic_downscaling vs tile_level_src (unreadable source chunks)", case, "ok", str(mod)[:200])
+        elif out != mod:
+            R.disagree("compute_dyadic_downscaling vs tile_level_src (error class)", case, out, mod[:2])
+        # oracle
+        if pyc:
+            if out[0] == "ok":
+                R.violation("transition finished without error although a chunk of the source scale is unreadable",
+                            case, {"written_chunks": len(out[1])})
+            elif out not in (["AccessErr"], ["FormatErr"]) or out[0] not in set(bad.values()):
+                R.violation("unreadable source chunk: the failure is not the error of a failed read", case, out)
+        elif out[0] == "ok":
+            got, full = io.assemble("new")
+            ref = pc.ref_downscale(vol, f3, method)
+            if not full or ref.shape != got.shape or not np.array_equal(got, ref):
+                R.violation("new scale written without error but wrong (unreadable source chunks present)", case, {})
 
 
 def _whole_level_oracle(R, rng, quick):
